@@ -996,6 +996,47 @@ def switch_space():
                 yield from filters_over(x)
 
 
+# list-valued sources whose values are nested 1, 2 and 3 levels deep (and
+# mixed depths in one sequence), from nested Pclump and from literal items
+_S8 = ['Pseq', [1, 2, 3, 4, 5, 6, 7, 8], 1, 0]
+NESTED_SOURCES = [
+    ['Pclump', _S8, 2],
+    ['Pseq', [[1, 2], [3]], 1, 0],
+    ['Pclump', ['Pclump', _S8, 2], 2],
+    ['Pclump', ['Pclump', ['Pseq', [1, 2, 3, 4, 5, 6], 1, 0],
+                ['Pseq', [1, 2], I, 0]], 2],
+    ['Pseq', [[1, [2, 3]], [[4], [5, 6]]], 1, 0],
+    ['Pclump', ['Pclump', ['Pclump', _S8, 2], 2], 2],
+    ['Pseq', [[1, [2, [3]]], 5], 1, 0],
+    ['Pseq', [1, [2], [[3, 4], 5], [[[6]], 7]], 1, 0],
+    ['Pseq', [[1, [2, [3]]], 5, [[4]], []], 2, 1],
+    ['Pstutter', ['Pseq', [[1, [2]], 3], 1, 0], 2],
+    ['Pn', [1, [2, [3, 4]]], 2],
+]
+FLATTEN_N = [-1, 0, 1, 2, 3, ['Pseq', [1, 2], I, 0],
+             ['Pseq', [2, 0, 1], 1, 0]]
+
+
+def flatten_space():
+    """Pflatten over values of depth 1-3 x level counts (negative, zero, up
+    to beyond the depth, pattern-valued): at top level, under the embedding
+    constructors, shared twice, flattened twice and re-clumped; the other
+    single-child uses (Pclump, Pstutter, Pdrop ...) over the same
+    sources."""
+    for src in NESTED_SOURCES:
+        yield src
+        for n in FLATTEN_N:
+            x = ['Pflatten', src, n]
+            yield x
+            yield from embedders_over(x)
+            yield ['Pseq', [x, x], 2, 0]
+            yield ['Pflatten', x, 1]
+            yield ['Pclump', x, 2]
+            yield ['Pstutter', x, 2]
+        yield from filters_over(src)
+        yield from embedders_over(src)
+
+
 def filters_over(x):
     """Every single-child constructor applied to child x."""
     for r in (1, 2, I):
@@ -1351,6 +1392,8 @@ def _generate(tier, slice_ix=0):
         add('depth3-seeded-random', e)
     for e in switch_space():
         add('depth' + str(min(depth(e), 3)) + '-switch-index', e)
+    for e in flatten_space():
+        add('depth' + str(min(depth(e), 3)) + '-nested-values', e)
     # the two widest families: every single-child use over every widened
     # depth-1 expression, and filter over filter (depth 3)
     wide2 = [e for x in d1w
@@ -1442,7 +1485,12 @@ def main(ctx):
         'inside a Pseed; Pswitch/Pswitch1 over 8 item lists x 10 index '
         'sources that leave 0..len-1 (out of range, negative, growing and '
         'falling counters, mixed aliases of one position), also under the '
-        'embedding constructors and single-child uses; a seed-selected '
+        'embedding constructors and single-child uses; Pflatten over 11 '
+        'sources with values nested 1-3 levels (nested Pclump, literal '
+        'nested items, mixed depths) x 7 level counts (-1..3, two '
+        'pattern-valued), also under the embedding constructors, shared, '
+        'flattened twice and re-clumped, and every single-child use over '
+        'those sources; a seed-selected '
         '1/8 of (a) every single-child use '
         'over the 639 widened depth-1 expressions and (b) depth 3 = every '
         'single-child use over 14 inner single-child constructors over 8 '
@@ -1465,7 +1513,10 @@ def main(ctx):
         'SuperCollider pattern help files and this library\'s comments; '
         "don't-cares: offsets outside the list, non-integer Pswitch/"
         'Pswitch1 indices (integer indices wrap around the list, aliases '
-        'of one position share the item stream), Pflatten on nested lists/tuples or n<1, operators on list '
+        'of one position share the item stream), Pflatten of values that contain tuples (each list value loses '
+        'exactly n levels, its own list being the first: the reading under '
+        'which Pflatten undoes n applications of Pclump; n <= 0 leaves '
+        'values whole), operators on list '
         'values, structure depending on random values, endless non-yielding '
         'loops, Pconst within tolerance of the sum, behaviour after the end '
         'of a stream, container type (list/tuple) of Ptuple/Pclump values, '
